@@ -183,7 +183,12 @@ def sim_cases(draw, jit=False):
     return {"grid": gspec, "eq": eq, "solver": solver, "backend": backend, "dt": dt, "steps": steps,
             "seed": draw(st.integers(0, 2**31)), "param": draw(st.sampled_from([1.0, 0.5, 2.0, 0.1])),
             "tracker": draw(st.sampled_from(["data", "material", "both"])),
-            "explicit_bc": draw(st.booleans())}
+            "explicit_bc": draw(st.booleans()),
+            # Cahn-Hilliard: the concentration may carry any (wetting) condition as long as the
+            # chemical potential has no flux; added after the seeded change C05-3 (compiled rate
+            # built the second Laplacian with bc_c) was missed with bc_c == bc_mu
+            "bc_c": draw(st.sampled_from(["same", "same", "derivative", "value", "mixed"])),
+            "bc_c_value": draw(st.sampled_from([0.4, -0.3, 1.0]))}
 
 
 def check_simulation(case):
@@ -199,7 +204,14 @@ def check_simulation(case):
     if case["eq"] == "diffusion":
         eq = pde.DiffusionPDE(p, bc=bc)
     elif case["eq"] == "cahn-hilliard":
-        eq = pde.CahnHilliardPDE(p, bc_c=bc, bc_mu=bc)
+        bc_c = bc
+        if case.get("bc_c", "same") != "same":
+            v = case["bc_c_value"]
+            side = {"derivative": {"derivative": v}, "value": {"value": v},
+                    "mixed": {"type": "mixed", "value": abs(v), "const": v}}[case["bc_c"]]
+            names = gb.axis_names(gspec)
+            bc_c = {nm: ("periodic" if per else side) for nm, per in zip(names, gspec["periodic"])}
+        eq = pde.CahnHilliardPDE(p, bc_c=bc_c, bc_mu=bc)
     elif case["eq"] == "expr-ch":
         eq = pde.PDE({"c": f"laplace(c**3 - c - {p} * laplace(c))"}, bc=bc)
     else:
@@ -261,6 +273,7 @@ def check_simulation(case):
                 key=f"sim-final:{case['eq']}:{gspec['cls']}")
     labels = [f"grid:{grid_label(gspec)}", f"eq:{case['eq']}", f"solver:{case['solver']}", f"backend:{case['backend']}",
               "finite-end" if finite_end else "blow-up", f"tracker:{case['tracker']}",
+              f"bc_c:{case.get('bc_c', 'same')}" if case["eq"] == "cahn-hilliard" else "bc_c:n/a",
               "bounded" if bounded else "unbounded"]
     return {"nt": n >= 2 and finite_end, "labels": labels}
 
